@@ -299,6 +299,7 @@ def check(sh, src, T, steps, leaf=None, ctor=None):
     passthrough_probe(sh, ctor, leaf, src, T)
     generic_probe(sh, ctor, leaf, src, T, namespace())
     fp1 = fingerprint(built["unmarshaller"], built["marshaller"])
+    served_permutation = permutation_served(T)
     try:
         with quiet():
             fp2 = fingerprint(typelib.unmarshaller(T), typelib.marshaller(T))
@@ -311,7 +312,26 @@ def check(sh, src, T, steps, leaf=None, ctor=None):
     if fp1 != fp2:
         sh.violation("second-build-differs", annotation=src, detail=short([(a, b) for a, b in zip(fp1, fp2) if a != b][:2], 300))
     if fp1 != fp3:
-        sh.violation("build-after-cache-clear-differs", annotation=src, detail=short([(a, b) for a, b in zip(fp1, fp3) if a != b][:2], 300))
+        sh.violation("build-after-cache-clear-differs", annotation=src, detail=short([(a, b) for a, b in zip(fp1, fp3) if a != b][:2], 300),
+                     served_permutation=served_permutation)
+
+
+def permutation_served(T, depth=0):
+    """Mechanism fact for finding D15: does a union inside T currently get a routine whose member order is that of another,
+    equal-but-reordered union built earlier in this process (e.g. the Union[int, str] a constrained TypeVar stands for)?"""
+    if depth > 6:
+        return False
+    o = typing.get_origin(T)
+    if o in (typing.Union, types.UnionType):
+        declared = [a for a in typing.get_args(T) if a is not type(None)]
+        try:
+            with quiet():
+                stack = [a for a in getattr(typelib.unmarshaller(T), "stack", ()) if a is not type(None)]
+            if stack and stack != declared and len(stack) == len(declared) and all(any(a == b for b in declared) for a in stack):
+                return True
+        except Exception:  # noqa: BLE001
+            pass
+    return any(permutation_served(a, depth + 1) for a in typing.get_args(T) if not isinstance(a, (list, tuple)))
 
 
 def canaries(sh):
